@@ -41,8 +41,8 @@ def render_full(src, checker, harvested=False):
         fails, tree = check(src, checker=checker, visitor_cls=Rec, want_tree=True, module_factory=test_module_factory() if harvested else None)
     except Exception as e:
         return ["EXC", type(e).__name__]
-    d = sorted(list(diag(f)) for f in fails)
-    d = [[c, l, co, _ID.sub("id='ID'", m)] for c, l, co, m in d]
+    # the full message (first line, detail lines such as "X has no attribute 'm'", source context), not only the one-line description
+    d = sorted([diag(f)[0], diag(f)[1], diag(f)[2], _ID.sub("id='ID'", norm_text(f.get("message") or f.get("description", "")))] for f in fails)
     inf = sorted([list(k), [_ID.sub("id='ID'", norm_text(str(v))) for v in vs]] for k, vs in inferred_map(tree).items())
     return json.loads(json.dumps([d, inf]))
 
